@@ -7,7 +7,7 @@ Local Open Scope N_scope.
 (* ---------------------------------------------------------------- forward form of norm_go *)
 
 Definition sp_join (sp : option bool) (m : bool) : option bool :=
-  match sp with Some m0 => Some (m0 || m || true) | None => Some m end.
+  match sp with Some m0 => Some m0 | None => Some m end.
 
 Definition sep_of (prev : option token) (sp : option bool) (t : token) : list token :=
   match prev with None => [] | Some p => if space_between p sp t then [TSpace false] else [] end.
